@@ -569,6 +569,11 @@ V("lex-nonstrict-entail-lt-neutral", "neutral", ["C07", "C01"], P + "lexicograph
   "non-strict sub-case declares entailment only under < (later than necessary, never wrong)", within="def compute_domains_3",
   edits=[{"old": "return PROP_ENTAILMENT if x[q, MAX] <= y[q, MIN] else PROP_CONSISTENCY", "new": "return PROP_ENTAILMENT if x[q, MAX] < y[q, MIN] else PROP_CONSISTENCY"}])
 
+V("mingeq-entail-wrong-bound", "break", ["C07", "C01"], P + "min_geq_propagator.py", "    if y[MAX] <= np.min(x[:, MIN]):", "    if np.min(x[:, MIN]) >= y[MIN]:",
+  "min_geq declares entailment against the wrong bound of y ('mirrors' max_leq textually, not semantically)", "min_geq")
+V("mingeq-entail-neutral-flipped", "neutral", ["C07", "C01"], P + "min_geq_propagator.py", "    if y[MAX] <= np.min(x[:, MIN]):", "    if np.min(x[:, MIN]) >= y[MAX]:",
+  "same guard written the other way round")
+
 # --------------------------------------------------------------------------------------------- index extents
 V("element-iv-no-clamp-low", "break", ["C16"], P + "element_iv_propagator.py", "    i[MIN] = max(i[MIN], 0)\n", "", "index variable not clamped to the table from below", "compute_domains_element_iv")
 V("element-iv-clamp-len", "break", ["C16"], P + "element_iv_propagator.py", "    i[MAX] = min(i[MAX], len(l) - 1)\n", "    i[MAX] = min(i[MAX], len(l))\n", "index variable clamped one past the table", "compute_domains_element_iv")
